@@ -407,3 +407,72 @@ func VerifH_C13_SharedText() {
 	vrt.Assert(vrt.Iff(ex == nil, vrt.And(pv >= lo1, pv <= hi1)), "c13.sharedtext.first-base-bounds")
 	vrt.Assert(vrt.Iff(ey == nil, vrt.And(pv >= lo2, pv <= hi2)), "c13.sharedtext.second-base-bounds")
 }
+
+// VerifH_C13_Scopes: typedefs of the SAME name in scopes that do not enclose one another
+// (two sibling containers, a grouping, the top level of an imported module bound to a
+// prefix) in one compile.  Each leaf must get the restrictions and the default of the
+// typedef visible from where it stands.
+func VerifH_C13_Scopes() {
+	digit := func(tag string) (string, int64) {
+		d := []byte{'3', '5', '8'}[vrt.Choice(tag, 3)]
+		return string([]byte{d}), int64(d - '0')
+	}
+	t1, h1 := digit("hi1")
+	t2, h2 := digit("hi2")
+	t3, h3 := digit("hi3")
+	t4, h4 := digit("hi4")
+	def2 := vrt.Bool("second-scope-has-default")
+	td := func(hi string, def string) string {
+		s := "typedef t { type int32 { range '1.." + hi + "'; } "
+		if def != "" {
+			s += "default '" + def + "'; "
+		}
+		return s + "} "
+	}
+	d2 := ""
+	if def2 {
+		d2 = "2"
+	}
+	parts := []string{
+		// (this parser enters a statement's typedefs into the scope the statement itself
+		// stands in, so like-named typedefs are only accepted two levels apart)
+		"container a { container i { " + td(t1, "1") + "leaf x { type t; } } } ",
+		"container b { container i { " + td(t2, d2) + "leaf x { type t; } } } ",
+		"container c { grouping g { " + td(t3, "") + "leaf x { type t; } } container i { uses g; } } ",
+		"container d { container i { leaf x { type q:t; } } } ",
+	}
+	order := vrt.Choice("scope-order", 4) // rotate the order in which the scopes are written
+	body := ""
+	for i := 0; i < 4; i++ {
+		body += parts[(i+order)%4]
+	}
+	texts := map[string]string{
+		"m": "module m { namespace 'urn:m'; prefix m; import n { prefix q; } " + body + "}",
+		"n": "module n { namespace 'urn:n'; prefix n; " + td(t4, "") + "leaf y { type t; } }",
+	}
+	vrt.Reach("c13.scopes")
+	ms, err := compileTexts(texts, featSet{}, nil)
+	if err != nil {
+		vrt.Observe("verdict", err.Error())
+	}
+	vrt.Assert(err == nil, "c13.scopes.compiles")
+	if err != nil {
+		return
+	}
+	his := []int64{h1, h2, h3, h4}
+	for i, cn := range []string{"a", "b", "c", "d"} {
+		leaf := ms.Child(cn).Child("i").Child("x").(schema.Leaf)
+		got, has := leaf.Default()
+		want := map[string]string{"a": "1", "b": d2}[cn]
+		vrt.Observe("default", cn, got, has)
+		vrt.Assert(has == (want != "") && got == want, "c13.scopes.default-of-the-visible-typedef")
+		for p := 0; p < 10; p++ {
+			e := leaf.Type().Validate(c13Ctx{}, []string{cn, "i", "x"}, strconv.Itoa(p))
+			vrt.Assert((e == nil) == (int64(p) >= 1 && int64(p) <= his[i]), "c13.scopes.bounds-of-the-visible-typedef")
+		}
+	}
+	for p := 0; p < 10; p++ {
+		ey := ms.Child("y").(schema.Leaf).Type().Validate(c13Ctx{}, []string{"y"}, strconv.Itoa(p))
+		vrt.Assert((ey == nil) == (int64(p) >= 1 && int64(p) <= h4), "c13.scopes.bounds-of-the-visible-typedef")
+	}
+}
